@@ -217,10 +217,15 @@ func c02LaneReader(t *testing.T, r *sim.Run) {
 		nfiles = 1
 		r.Lane = "reader-sweep"
 	}
-	switch T.Intn(8, "mode") {
-	case 0:
+	mode := T.Intn(16, "mode")
+	switch mode {
+	case 8:
+		// more distinct keys and units than any small intern table holds; large text, so no byte-sized chunks
 		opts.stress = true
-		opts.maxLines = 200
+		opts.maxLines = 120
+		if nfiles > 2 {
+			nfiles = 2
+		}
 		r.Info["mode"] = "intern-stress"
 	case 1:
 		opts.maxLines = 200
@@ -244,6 +249,9 @@ func c02LaneReader(t *testing.T, r *sim.Run) {
 		src := sim.NewSimReader(r, text)
 		src.Quirks = T.Bool("quirks")
 		src.MaxChunk = []int{0, 1, 2, 5, 64, 4096, 100000}[T.Intn(7, "chunk")]
+		if opts.stress && src.MaxChunk > 0 && src.MaxChunk < 64 {
+			src.MaxChunk = 512
+		}
 		delivered := string(text)
 		wantErr := false
 		rf := T.Intn(6, "rfault")
@@ -346,6 +354,7 @@ func c02LaneReader(t *testing.T, r *sim.Run) {
 		st.checkUnits(rd.Units(), ref)
 	}
 	st.checkClones()
+	r.Info["distinct-strings"] = fmt.Sprint(len(st.seenStr))
 	if len(st.seenStr) > 1024 {
 		r.Hit("more than 1024 distinct keys/units through one reader")
 	}
